@@ -22,6 +22,16 @@ Theorem C04_only_unrequested_ids_are_scrubbed : forall fuel client root ps,
 Proof. exact scrub_fields_sound. Qed.
 Print Assumptions C04_only_unrequested_ids_are_scrubbed.
 
+(* ... and none is forgotten: the insertion point of every step of the plan is among the scrubbed
+   places unless the client asked for the key id there (the join id is injected exactly at the
+   insertion points of dependent steps, so every injected id has its scrub path) *)
+Theorem C04_every_step_point_is_scrubbed : forall fuel client root ps,
+  scrub_fields fuel client root = Ok ps ->
+  forall x c target, In x (thens_of root) -> substep c x -> ipoint_of c <> [] ->
+    descend (ipoint_of c) client = Ok target -> natural_id target = false -> In (ipoint_of c) ps.
+Proof. exact scrub_fields_complete. Qed.
+Print Assumptions C04_every_step_point_is_scrubbed.
+
 (* scrubbing a point removes exactly the named field of the object there: it is gone, and every
    other key of that object keeps its value *)
 Theorem C04_scrub_removes_the_field_only : forall field response point response',
